@@ -353,11 +353,11 @@ def run(shard, tier, seed):
     _shrinking = [False]
     chainexec.Run.execute = execute_and_compare
     try:
-        if shard["i"] == 9:
+        if shard["i"] in (8, 9):
             # long histories whose candidates (honest and broken) sit on parents more than 20 blocks below the head
             return chainexec.drive(res, env.subseed(seed, ID, shard["i"]), n // 2, tier, FOCUS, CATS, ID, n_blocks=(30, 38), p_mut=0.5,
                                    p_fork=0.1, p_deep_fork=0.45, deep_min=21, p_tx=0.3, p_restart=0.0,
-                                   c05_extra_tags=["ev_forged_summary"] * 9 + ["ev0", "ev1", "ev2", "pow_bad"])
+                                   c05_extra_tags=["ev_forged_summary"] * 14 + ["ev0", "ev1", "ev2", "pow_bad"])
         r = chainexec.drive(res, env.subseed(seed, ID, shard["i"]), n, tier, FOCUS, CATS, ID, n_blocks=nb, p_mut=0.45, p_deep=0.25,
                             p_fork=0.55, dts_mix=[None, [60, 90, 120, 150, 240, 400], [100, 120, 140, 1000]], deep_vlq_edge=0.3)
     finally:
